@@ -15,8 +15,8 @@ from . import common as C
 
 THEOREMS = [
     "chan_shape", "chan_shape_design_counterexample", "fifo_conservation", "scan_ready_sound", "pick_in_range",
-    "select_choice_ready", "close_semantics_counterexample", "close_semantics_partial",
-    "nil_never_proceeds_counterexample", "nil_never_proceeds_partial",
+    "select_choice_ready", "scan_default", "select_default", "close_semantics", "closed_later_ops",
+    "nil_never_proceeds", "no_lost_wakeup", "wake_removes_all_entries", "awake_count", "deadlock_report_iff",
 ]
 
 SIG_SELECT_SEND = "C03 close chan=open blocked=select-send-case closer-panics-send-on-closed selector-not-woken"
@@ -283,6 +283,7 @@ def run(tier, seed):
                    "hand-written model GV.Model.Chan/Sched tied to goroutines.js by this differential run",
                    "GV.Spec.GoChan = my reading of the Go specification (channels, select, close)",
                    "harness/js/topics/chan.js scripted goroutine = the frame shape emitted by the compiler (checked against compiled programs by the program-level tie)"]
+    chk.notes.append("round 2: the model mirrors goroutines.js WITH fixes/C03-select-send-close.patch and fixes/C03-close-nil.patch applied")
     chk.assumptions = ["channel values are defined JS values (a `undefined` *js.Object element would be taken for an empty buffer by $recv)",
                        "$checkForDeadlock stays true and $exportedFunctions stays 0 (no Go function handed to JavaScript)",
                        "a timer callback closing a channel with >= 2 blocked goroutines (nested $runScheduled inside $close) is not modelled; the event is ignored on both sides",
@@ -291,9 +292,14 @@ def run(tier, seed):
     t0 = time.time()
     timing = chk.extra.setdefault("phase_seconds", {})
 
+    import resource
+    cpu = chk.extra.setdefault("phase_cpu_seconds_cumulative", {})
+
     def phase(name):
         timing[name] = round(time.time() - t0, 1)
-        C.log("[C03] %s done at %.1fs" % (name, time.time() - t0))
+        r1, r2 = resource.getrusage(resource.RUSAGE_CHILDREN), resource.getrusage(resource.RUSAGE_SELF)
+        cpu[name] = round(r1.ru_utime + r1.ru_stime + r2.ru_utime + r2.ru_stime, 1)
+        C.log("[C03] %s done at %.1fs wall, %.1fs cpu" % (name, time.time() - t0, cpu[name]))
     chk.proof = C.check_proofs("C03", THEOREMS, tier)
     phase("proofs")
     if not chk.proof.build_ok:
@@ -642,7 +648,7 @@ def run_programs(chk, tier, rng):
     thorough = tier == "thorough"
     jobs = []
     # (a) scripted programs: GopherJS under Node vs the model's prediction
-    Ps = [gen_scripted_program(rng, "s%d" % i) for i in range(250 if thorough else 40)]
+    Ps = [gen_scripted_program(rng, "s%d" % i) for i in range(250 if thorough else 30)]
     pred = model_predict(Ps)
     keep = []
     for P, (trace, ending, script) in zip(Ps, pred):
@@ -651,11 +657,27 @@ def run_programs(chk, tier, rng):
             continue
         keep.append((P, trace, ending, script))
         jobs.append({"id": P["id"], "files": {"main.go": scripted_source(P)}, "variants": ["plain"], "native": False, "timeout": 20})
-    # (b) deterministic-by-construction programs: GopherJS vs native Go
+    # (b) deterministic-by-construction programs: GopherJS vs native Go. Scenarios that end normally are batched
+    #     ten to a program (one native build per batch); scenarios ending in deadlock / panic are programs of their own.
     det = []
-    for i in range(80 if thorough else 16):
+    n_ok, n_abn = (60, 20) if thorough else (10, 2)
+    oks, abns = [], []
+    while len(oks) < n_ok or len(abns) < n_abn:
         name, src = rng.choice([tmpl_pipeline, tmpl_fanin, tmpl_deadlock, tmpl_close])(rng)
-        det.append((name, src))
+        normal = name in ("pipeline", "fanin", "close:wake-receivers", "close:blocked-sender", "close:drain")
+        if normal and len(oks) < n_ok:
+            oks.append((name, src))
+        elif not normal and len(abns) < n_abn:
+            abns.append((name, src))
+    for b0 in range(0, len(oks), 10):
+        group = oks[b0:b0 + 10]
+        body = GO_HEAD
+        for i, (name, src) in enumerate(group):
+            body += src.replace(GO_HEAD, "").replace("func main()", "func scenario%d()" % i).replace("stage(", "stage%d(" % i) + "\n"
+        body += "func main() {\n" + "".join("\tprintln(\"==\", %d)\n\tscenario%d()\n" % (i, i) for i in range(len(group))) + "}\n"
+        det.append(("batch[" + ",".join(n for n, _ in group) + "]", body))
+    det += abns
+    for i, (name, src) in enumerate(det):
         jobs.append({"id": "d%d" % i, "files": {"main.go": src}, "variants": ["plain"], "native": True, "timeout": 20})
     # (c) the recorded defects as programs, (d) a nondeterministic select
     jobs.append({"id": "defect1", "files": {"main.go": DEFECT_SELECT_SEND}, "variants": ["plain"], "native": True})
@@ -696,10 +718,11 @@ def run_programs(chk, tier, rng):
             js = progs.observe_js(runs[v])
             js = (js[0], norm_end(js[1]))
             op = "prog:%s:%s\n%s" % (name, v, src)
-            chk.add_case("prog-det", op, kindkey="prog:" + name + ":" + nat[1].split(" ")[0][:40])
+            for part in (name[6:-1].split(",") if name.startswith("batch[") else [name]):
+                chk.add_case("prog-det", op + part, kindkey="prog:" + part + ":" + nat[1].split(" ")[0][:40])
             if js != nat:
                 chk.add_mismatch("prog-det", op, "%s / %s" % js, "%s / %s" % nat, signature="C03 program %s impl=%s go=%s" % (name, js[1], nat[1]))
-    # defects: GopherJS differs from Go exactly in the recorded way
+    # the two defects repaired in round 2, as regression programs: GopherJS must now equal Go
     for pid, sig, src in (("defect1", SIG_SELECT_SEND, DEFECT_SELECT_SEND), ("defect2", SIG_CLOSE_NIL, DEFECT_CLOSE_NIL)):
         js = progs.observe_js(res[pid]["runs"]["plain"])
         nat = progs.observe_native(res[pid]["runs"]["native"])
